@@ -1,6 +1,7 @@
 package curves
 
 import (
+	"errors"
 	"github.com/markusressel/fan2go/internal/configuration"
 	"github.com/markusressel/fan2go/internal/sensors"
 	"github.com/markusressel/fan2go/internal/zzv"
@@ -75,3 +76,5 @@ func zzMemberIds(n int) []string {
 	}
 	return ids
 }
+
+var errZZ = errors.New("zz: sensor read failed")
